@@ -61,7 +61,7 @@ def run(chk, repo, tier):
 
     from .common import Remap
     from . import c09
-    c09.run(Remap(chk, {'C09-d': 'C05-b', 'C09-e': 'C05-b', 'C09-h': 'C05-b'}), repo, tier)
+    c09.run(Remap(chk, {'C09-d': 'C05-b', 'C09-e': 'C05-b', 'C09-h': 'C05-b', 'C09-g': 'C05-b'}), repo, tier)
 
     # ---------------------------------------------------------------- C05-c
     fi, paths, _ = analyse(repo, 'field.insert', config={'intensity': TRUE, 'weight': C(1)},
